@@ -273,6 +273,75 @@ fn server_method(e: &EndpointInfo) -> String {
     out.join(";")
 }
 
+fn unhx(h: &str) -> String {
+    String::from_utf8_lossy(&crate::util::unhex(h).unwrap_or_default()).to_string()
+}
+
+/// the statement itself, on the two generated halves (no model involved): the client sends every argument in the
+/// form the server's decoder for it takes, under the same name; fills each `{name}` of the template with the path
+/// argument of that name; and decodes the response with the function that reads what the trait's serializer writes
+fn halves_agree(client: &str, server: &str, path: &str) -> Option<String> {
+    let c: Vec<Vec<&str>> = client.split(';').map(|t| t.split(':').collect()).collect();
+    let s: Vec<Vec<&str>> = server.split(';').map(|t| t.split(':').collect()).collect();
+    // path parameters, in template order
+    let template: Vec<String> = path.split('/').skip(1).filter_map(|seg| seg.strip_prefix('{').and_then(|x| x.strip_suffix('}')).map(|x| x.split(':').next().unwrap_or("").to_string())).collect();
+    let pushed: Vec<String> = c.iter().filter(|t| t[0] == "pp").map(|t| unhx(t.get(1).unwrap_or(&""))).collect();
+    let ident_of = |name: &str| s.iter().find(|t| t[0] == "path" && unhx(t.get(1).unwrap_or(&"")) == name).map(|t| unhx(t.get(2).unwrap_or(&"")));
+    let want: Vec<Option<String>> = template.iter().map(|n| ident_of(n)).collect();
+    if want.iter().all(|w| w.is_some()) && want.iter().map(|w| w.clone().unwrap()).collect::<Vec<_>>() != pushed {
+        return Some(format!("the template's parameters {:?} are filled from the arguments {:?} (the server's path arguments of those names are {:?})", template, pushed, want));
+    }
+    // query and header arguments: same key, matching cardinality
+    for t in s.iter().filter(|t| t[0] == "query" || t[0] == "header") {
+        let (kind, id, dec, ident) = (t[0], unhx(t.get(1).unwrap_or(&"")), *t.get(2).unwrap_or(&""), unhx(t.get(3).unwrap_or(&"")));
+        let sent = c.iter().find(|x| match kind {
+            "query" => matches!(x[0], "q" | "oq" | "lq" | "sq") && unhx(x.get(1).unwrap_or(&"")) == id,
+            _ => matches!(x[0], "h" | "oh") && unhx(x.get(1).unwrap_or(&"")) == id.to_ascii_lowercase(),
+        });
+        match sent {
+            None => return Some(format!("the server takes a {} argument `{}` that the client never sends", kind, id)),
+            Some(x) => {
+                let card = match x[0] {
+                    "q" | "h" => "one",
+                    "oq" | "oh" => "opt",
+                    _ => "seq",
+                };
+                let takes = if dec.starts_with("opt") { "opt" } else { dec };
+                if card != takes {
+                    return Some(format!("{} argument `{}`: the client sends it as `{}` ({}), the server decodes it with a `{}` decoder", kind, id, x[0], card, dec));
+                }
+                if unhx(x.get(2).unwrap_or(&"")) != ident {
+                    return Some(format!("{} argument `{}`: the client sends `{}`, the server's argument is `{}`", kind, id, unhx(x.get(2).unwrap_or(&"")), ident));
+                }
+            }
+        }
+    }
+    // body
+    let body = s.iter().find(|t| t[0] == "body");
+    let req = c.iter().find(|t| t[0] == "req").map(|t| t[1]).unwrap_or("?");
+    match (body, req) {
+        (None, "empty") => {}
+        (Some(b), "bin") if b[1] == "bin" => {}
+        (Some(b), "ser") if b[1] != "bin" => {}
+        (b, r) => return Some(format!("the client builds a `{}` request, the server's body argument is {:?}", r, b.map(|b| b[1]))),
+    }
+    // auth
+    let s_auth = s.iter().find(|t| t[0] == "auth").map(|t| t.get(1).map(|c| format!("{}=", unhx(c))));
+    let c_auth = c.iter().find(|t| t[0] == "ha" || t[0] == "ca").map(|t| t.get(1).map(|p| unhx(p)));
+    if s_auth != c_auth {
+        return Some(format!("auth: the client sends {:?}, the server expects {:?} (None = Authorization header, Some = cookie prefix)", c_auth, s_auth));
+    }
+    // the way back
+    let produces = s.first().and_then(|t| t.get(4)).copied().unwrap_or("?");
+    let dec = c.iter().find(|t| t[0] == "dec").map(|t| t[1]).unwrap_or("?");
+    let acc = c.iter().find(|t| t[0] == "acc").map(|t| t[1]).unwrap_or("?");
+    let ok = matches!((produces, dec, acc), ("-", "empty", "empty") | ("std", "ser", "ser") | ("collection", "def", "ser") | ("bin", "bin", "bin") | ("optbin", "optbin", "bin"));
+    if !ok {
+        return Some(format!("the trait's response serializer is `{}`, the client asks for `{}` and decodes with `{}`", produces, acc, dec));
+    }
+    None
+}
+
 fn one_doc(cs: &mut Cases, label: &str, ir: &Value, cfg: &GenCfg) {
     let (defs, index) = defs_sexp(ir);
     let services = ir["services"].as_array().cloned().unwrap_or_default();
@@ -308,6 +377,10 @@ fn one_doc(cs: &mut Cases, label: &str, ir: &Value, cfg: &GenCfg) {
                 cs.fail_last("emit:client-flavours-differ", format!("the blocking and the async client method of {}.{} make different calls: {} vs {}", sname, ename, c_sync, c_async));
             } else if s_sync != s_async {
                 cs.fail_last("emit:server-flavours-differ", format!("the blocking and the async trait method of {}.{} carry different attributes: {} vs {}", sname, ename, s_sync, s_async));
+            } else if c_sync != "missing" && s_sync != "missing" {
+                if let Some(what) = halves_agree(&c_sync, &s_sync, ep["httpPath"].as_str().unwrap_or("")) {
+                    cs.fail_last("emit:halves-disagree", format!("generated client and generated server of {}.{} ({} {}) do not fit: {} — IR endpoint {}", sname, ename, ep["httpMethod"].as_str().unwrap_or(""), ep["httpPath"].as_str().unwrap_or(""), what, serde_json::to_string(&ep).unwrap().chars().take(900).collect::<String>()));
+                }
             }
         }
     }
